@@ -90,10 +90,16 @@ def run_impl(gi, alleles, display):
         return ("err", ERR[type(e)])
     arr = [list(h) for h in ms.diplotype]
     assert d is ms.diplotype or list(map(list, d)) == arr
-    mj = ms.get_major_diplotype()
+    def text(f, **kw):
+        # an arrangement exists, so the strings must too: an exception of a printer is an observation, not a harness crash
+        try:
+            return f(**kw)
+        except Exception as e:   # noqa
+            return f"<{type(e).__name__} raised by {f.__name__}>"
+    mj = text(ms.get_major_diplotype)
     if gi.fake or any(not a["minor"] for a in alleles):
         return ("ok", arr, mj, None, None)
-    return ("ok", arr, mj, ms.get_minor_diplotype(), ms.get_minor_diplotype(legacy=True))
+    return ("ok", arr, mj, text(ms.get_minor_diplotype), text(ms.get_minor_diplotype, legacy=True))
 
 
 # ------------------------------------------------------------------ model terms
